@@ -47,6 +47,11 @@ type mwDeployConf struct {
 	// ArtifactBinding: samlsp.Options.UseArtifactResponse; the IdP may then bring the browser back with GET acs?SAMLart=..&RelayState=..
 	// and the SP fetches the response over its back-channel (mwResolver)
 	ArtifactBinding bool `json:"use_artifact_response,omitempty"`
+	// CustomRSLen (with CustomRS; 0: the short "custom-rs-<n>"): the custom relay-state function returns values this many bytes long - a
+	// tenant name plus a deep-link token, say. CustomRSOwnLast: the part that tells one flow's value from another's comes last (the
+	// values share a long prefix) instead of first
+	CustomRSLen     int  `json:"custom_relay_state_len,omitempty"`
+	CustomRSOwnLast bool `json:"custom_relay_state_own_part_last,omitempty"`
 }
 
 // mwResolver is the IdP's artifact resolution service as the SP's HTTP client sees it: the artifact's message handle names
@@ -186,7 +191,14 @@ func newMWDeploy(c mwDeployConf, idpMD *saml.EntityDescriptor, gateAttr, gateVal
 	if c.CustomRS {
 		opts.RelayStateFunc = func(http.ResponseWriter, *http.Request) string {
 			d.rsCount++
-			return fmt.Sprintf("custom-rs-%d", d.rsCount)
+			own := fmt.Sprintf("custom-rs-%d", d.rsCount)
+			if pad := c.CustomRSLen - len(own); pad > 0 {
+				if c.CustomRSOwnLast {
+					return strings.Repeat("t", pad-1) + "-" + own
+				}
+				return own + "-" + strings.Repeat("t", pad-1)
+			}
+			return own
 		}
 	}
 	m, err := samlsp.New(opts)
